@@ -73,6 +73,7 @@ class DisplayOracle:
                       "frame_taller_than_screen": 0, "frame_exact_screen_height": 0, "frame_shrunk": 0,
                       "frame_grew": 0, "frame_empty": 0, "relaxed_runs": 0, "writes": 0}
         self._ellipsis = None
+        self.sig_hint = None  # set by a client around an operation whose failure has its own signature
         self.tracker = None  # SpanTracker, when the run may meet the overlapping-spans finding
         self._cur_write = None
 
@@ -129,6 +130,8 @@ class DisplayOracle:
 
     def violate(self, oracle, sig, msg):
         if self.viol is None:
+            if self.sig_hint and sig in ("screen-mismatch", "missing-output"):
+                sig = self.sig_hint
             for tag in ("progress-frame-exceeds-screen", "transient-frame-fills-screen"):
                 if tag in self.tags:
                     sig = tag
